@@ -762,3 +762,7 @@ Theorem umin_correct a b : umin a b = N.min a b.
 Proof. unfold umin. destruct (N.ltb_spec b a); lia. Qed.
 Theorem umax_correct a b : umax a b = N.max a b.
 Proof. unfold umax. destruct (N.ltb_spec a b); lia. Qed.
+
+Theorem petree_reg_filled bps n inp t :
+  1 <= bps -> (n <= t)%nat -> petree_reg bps n inp t <> None.
+Proof. intros Hb Ht. unfold petree_reg. apply petree_reg_filled_fuel; auto. Qed.
